@@ -167,7 +167,7 @@ func run(ctx *core.Ctx) error {
 		if why := checkTable(gc, ob); why != "" {
 			suspects[len(recs)] = why
 		}
-		if gc.Bad == "" && ob.Rec.Accepted && !reflect.DeepEqual(normShape(gc.Shape), normShape(ob.Shape)) {
+		if gc.Bad == "" && gc.Root != "mem" && ob.Rec.Accepted && !reflect.DeepEqual(normShape(gc.Shape), normShape(ob.Shape)) {
 			drift++
 			ctx.Logf("note: %s: the tree's shape differs from the model's prediction (not demanded by the property)", ob.Spec.id())
 		}
@@ -181,6 +181,35 @@ func run(ctx *core.Ctx) error {
 		kept = append(kept, ob)
 		keptCase = append(keptCase, gc)
 	}
+	// 3b. second shape: scripts on one in-memory tree value, edited between uses
+	scripts, err := generateMem(ctx)
+	if err != nil {
+		return err
+	}
+	memObs, memRuns, memUnreal, err := runMemScripts(ctx, scripts)
+	if err != nil {
+		return err
+	}
+	for _, ob := range memObs {
+		gc := genCase{N: len(ob.Written), Accept: true, Root: "mem"}
+		if why := checkTable(gc, ob); why != "" {
+			suspects[len(recs)] = why
+		}
+		ctx.Ev.Eval(ob.Evals)
+		if ob.Spec.Mem.Step > 0 {
+			ctx.Ev.Distinct(ob.Spec.id())
+		}
+		recs = append(recs, ob.Rec)
+		kept = append(kept, ob)
+		keptCase = append(keptCase, gc)
+	}
+	ctx.Ev.Set("inmemory_scripts", len(scripts))
+	ctx.Ev.Set("inmemory_script_runs", memRuns)
+	ctx.Ev.Set("inmemory_scripts_without_concrete_counterpart", memUnreal)
+	ctx.Ev.Set("inmemory_writes_judged", len(memObs))
+	ctx.Logf("in-memory scripts: %d from the model -> %d runs on one InMemory value (%d without concrete counterpart), %d writes recorded",
+		len(scripts), memRuns, memUnreal, len(memObs))
+
 	ctx.Ev.AddReplayed(len(recs))
 	ctx.Ev.Set("table_lines", len(table))
 	ctx.Ev.Set("cases_without_concrete_counterpart", unrealCases)
@@ -220,6 +249,15 @@ func run(ctx *core.Ctx) error {
 		} else if ob.Spec.N > 4096 {
 			cls = "deep"
 		}
+		if ob.Spec.Mem != nil {
+			cls = "mem"
+			if !sampled[cls] && ob.Spec.Mem.Step == 1 && ob.Spec.Mem.Ops[0].Op == "R" && ob.Spec.N >= 64 {
+				sampled[cls] = true
+				ctx.Ev.Sample(map[string]any{"kind": "edit of one in-memory value, then All/Lookup and Write(w, t.All()), judged by Trace_KeyTree", "case": ob.Spec,
+					"observed": map[string]any{"accepted": ob.Rec.Accepted, "nodes": len(ob.Rec.Nodes), "keys_and_probes": len(ob.Union), "size": ob.Rec.Size}})
+			}
+			continue
+		}
 		if !sampled[cls] && (ob.Spec.N == 129 || ob.Spec.N == 4097) {
 			sampled[cls] = true
 			ctx.Ev.Sample(map[string]any{"kind": "case executed on the real code and judged by Trace_KeyTree", "case": ob.Spec,
@@ -235,20 +273,22 @@ func run(ctx *core.Ctx) error {
 
 // designModels runs MC_KeyTree for the small fan-outs.
 func designModels(ctx *core.Ctx) error {
-	type mc struct{ cfg, note string }
+	type mc struct{ module, cfg, note string }
 	runs := []mc{
-		{"MC_KeyTree_F2.cfg", "F=2 N<=16"},
-		{"MC_KeyTree_F3.cfg", "F=3 N<=41"},
-		{"MC_KeyTree_F4.cfg", "F=4 N<=86"},
-		{"MC_KeyTree_gaps.cfg", "F=2 N<=11, one or two absent keys between neighbours"},
+		{"MC_KeyTree", "MC_KeyTree_F2.cfg", "F=2 N<=16"},
+		{"MC_KeyTree", "MC_KeyTree_F3.cfg", "F=3 N<=41"},
+		{"MC_KeyTree", "MC_KeyTree_F4.cfg", "F=4 N<=86"},
+		{"MC_KeyTree", "MC_KeyTree_gaps.cfg", "F=2 N<=11, one or two absent keys between neighbours"},
+		{"KeyTreeMem", "MC_KeyTreeMem.cfg", "in-memory value: F=2, 0..5 keys, <=3 edits with uses in between"},
 	}
 	if ctx.Thorough() {
 		runs = append(runs,
-			mc{"MC_KeyTree_F5.cfg", "F=5 N<=157"},
-			mc{"MC_KeyTree_F6.cfg", "F=6 N<=260"},
-			mc{"MC_KeyTree_F8.cfg", "F=8 N<=586"},
-			mc{"MC_KeyTree_gaps2.cfg", "F=2 N<=16, gaps"},
-			mc{"MC_KeyTree_gaps3.cfg", "F=3 N<=14, gaps"},
+			mc{"MC_KeyTree", "MC_KeyTree_F5.cfg", "F=5 N<=157"},
+			mc{"MC_KeyTree", "MC_KeyTree_F6.cfg", "F=6 N<=260"},
+			mc{"MC_KeyTree", "MC_KeyTree_F8.cfg", "F=8 N<=586"},
+			mc{"MC_KeyTree", "MC_KeyTree_gaps2.cfg", "F=2 N<=16, gaps"},
+			mc{"MC_KeyTree", "MC_KeyTree_gaps3.cfg", "F=3 N<=14, gaps"},
+			mc{"KeyTreeMem", "MC_KeyTreeMem_t.cfg", "in-memory value: F=3, up to 12 keys, <=3 edits"},
 		)
 	}
 	var wg sync.WaitGroup
@@ -260,7 +300,7 @@ func designModels(ctx *core.Ctx) error {
 		go func(i int, r mc) {
 			defer wg.Done()
 			defer func() { <-sem }()
-			_, errs[i] = ctx.MustHold(core.TLCOpts{Dir: "tree", Module: "MC_KeyTree", Cfg: r.cfg, Workers: 4,
+			_, errs[i] = ctx.MustHold(core.TLCOpts{Dir: "tree", Module: r.module, Cfg: r.cfg, Workers: 4,
 				XssMB: 512, Constants: r.note, Timeout: ctx.Dur(5, 20)})
 		}(i, r)
 	}
@@ -411,6 +451,16 @@ func checkTable(gc genCase, ob *observation) string {
 	if len(rec.LK) != len(rec.Val) || len(rec.ML) != len(rec.Val) {
 		return "readers not available"
 	}
+	if rec.Mem {
+		if len(rec.VAllK) != gc.N || len(rec.VL) != len(rec.Val) {
+			return "in-memory value: number of entries"
+		}
+		for i, want := range rec.Val {
+			if rec.VL[i] != want {
+				return fmt.Sprintf("Lookup of rank %d on the in-memory value: %d, expected %d", i+1, rec.VL[i], want)
+			}
+		}
+	}
 	for i, want := range rec.Val {
 		if rec.LK[i] != want && rec.LK[i] != -9 {
 			return fmt.Sprintf("streaming Lookup of rank %d: %d, expected %d", i+1, rec.LK[i], want)
@@ -425,7 +475,7 @@ func checkTable(gc genCase, ob *observation) string {
 // judge lets TLC judge the records (big ones in small batches) and returns
 // the rejected indices with the failed parts of the verdict.
 func judge(ctx *core.Ctx, recs []record) ([]int, map[int][]string, error) {
-	var bigIdx, midIdx, smallIdx []int
+	var bigIdx, midIdx, smallIdx, tinyIdx []int
 	for i := range recs {
 		recs[i].Seq = i
 		r := &recs[i]
@@ -434,6 +484,8 @@ func judge(ctx *core.Ctx, recs []record) ([]int, map[int][]string, error) {
 			bigIdx = append(bigIdx, i)
 		case len(r.Ord) > 600:
 			midIdx = append(midIdx, i) // rejected inputs: only the order and the input are judged
+		case len(r.Ord) <= 40:
+			tinyIdx = append(tinyIdx, i)
 		default:
 			smallIdx = append(smallIdx, i)
 		}
@@ -444,7 +496,7 @@ func judge(ctx *core.Ctx, recs []record) ([]int, map[int][]string, error) {
 	for _, part := range []struct {
 		idx   []int
 		batch int
-	}{{bigIdx, 2}, {midIdx, 12}, {smallIdx, 60}} {
+	}{{bigIdx, 2}, {midIdx, 12}, {smallIdx, 60}, {tinyIdx, 400}} {
 		if len(part.idx) == 0 {
 			continue
 		}
@@ -520,6 +572,15 @@ func report(ctx *core.Ctx, ob *observation, parts []string) error {
 	if s.Bad != "" {
 		class = "offending-" + s.Bad
 	}
+	if s.Mem != nil {
+		class = "after-edits-"
+		for i := 0; i < s.Mem.Step && i < len(s.Mem.Ops); i++ {
+			class += s.Mem.Ops[i].Op
+		}
+		if s.Mem.Step == 0 {
+			class = "first-use"
+		}
+	}
 	key := fmt.Sprintf("%s/%s/%s/%s", s.kind(), s.API, class, parts[0])
 	what := fmt.Sprintf("%s: the real tree / answers are rejected by the reference semantics (Trace_KeyTree): %s%s",
 		s.id(), strings.Join(parts, ", "), describe(ob))
@@ -532,6 +593,18 @@ func describe(ob *observation) string {
 	rec := &ob.Rec
 	if !rec.Accepted {
 		return fmt.Sprintf("; call failed with %q", ob.Err)
+	}
+	if rec.Mem {
+		for i, want := range rec.Val {
+			if i < len(rec.VL) && rec.VL[i] != want {
+				return fmt.Sprintf("; e.g. Lookup(%s) on the in-memory value = %d, map holds %d (-1 = not found)", ob.Union[i], rec.VL[i], want)
+			}
+		}
+		for _, rk := range rec.VAllK {
+			if rec.Val[rk-1] < 0 {
+				return fmt.Sprintf("; e.g. All() of the in-memory value yields %s, which is not in the map", ob.Union[rk-1])
+			}
+		}
 	}
 	for i, want := range rec.Val {
 		if i < len(rec.LK) && rec.LK[i] != want && rec.LK[i] != -9 {
@@ -561,6 +634,30 @@ func replay(ctx *core.Ctx, raw json.RawMessage) error {
 	if err := json.Unmarshal(raw, &s); err != nil {
 		return core.Infra("replay: %v", err)
 	}
+	if s.Mem != nil {
+		obs, err := observeMem(s, nil)
+		if err != nil {
+			return core.Infra("replay %s: %v", s.id(), err)
+		}
+		if obs == nil {
+			return core.Infra("replay %s: script has no concrete counterpart", s.id())
+		}
+		var recs []record
+		for _, ob := range obs {
+			fmt.Printf("  %s: accepted=%v nodes=%d keys+probes=%d size=%d\n", ob.Spec.id(), ob.Rec.Accepted, len(ob.Rec.Nodes), len(ob.Union), ob.Rec.Size)
+			recs = append(recs, ob.Rec)
+		}
+		bad, why, err := judge(ctx, recs)
+		if err != nil {
+			return err
+		}
+		for _, b := range bad {
+			if err := report(ctx, obs[b], why[b]); err != nil {
+				return err
+			}
+		}
+		return nil
+	}
 	ob, err := observe(s)
 	if err != nil {
 		return core.Infra("replay %s: %v", s.id(), err)
@@ -577,4 +674,134 @@ func replay(ctx *core.Ctx, raw json.RawMessage) error {
 		return report(ctx, ob, why[0])
 	}
 	return nil
+}
+
+// generateMem runs Gen_KeyTreeMem: every enabled edit sequence on small initial
+// maps (two edits; thorough: also around the leaf size) and single edits on
+// maps around one and two leaves, with the map expected after every edit.
+func generateMem(ctx *core.Ctx) ([]memScript, error) {
+	type gen struct {
+		sizes string
+		steps int
+	}
+	gens := []gen{{"{2, 3}", 2}, {"{0, 1, 64, 65, 129}", 1}}
+	if ctx.Thorough() {
+		gens = []gen{{"{1, 2, 3, 4, 64, 65}", 2}, {"{0, 63, 128, 129, 4096, 4097}", 1}, {"{2}", 3}}
+	}
+	var all []memScript
+	seen := map[string]bool{}
+	for _, g := range gens {
+		cfg := fmt.Sprintf("INIT GInit\nNEXT GNext\nCONSTANTS F = %d\n Variant = \"asCoded\"\n Sizes = %s\n MaxSteps = %d\n Sel = {\"lo\", \"mid\", \"hi\"}\n",
+			realF, g.sizes, g.steps)
+		cs, _, err := core.GenCases[memScript](ctx, core.TLCOpts{Dir: "tree", Module: "Gen_KeyTreeMem", CfgText: cfg, Mode: "evaluate",
+			XssMB: 512, XmxMB: 3000, Timeout: ctx.Dur(5, 15), Constants: "Sizes=" + g.sizes + fmt.Sprintf(" MaxSteps=%d", g.steps)})
+		if err != nil {
+			return nil, err
+		}
+		for _, c := range cs {
+			// selectors that pick the same keys give the same script: keep one
+			key := fmt.Sprint(c.N)
+			for i, o := range c.Ops {
+				key += fmt.Sprintf("|%s%v%v", o.Op, c.After[i].Keys, c.After[i].Vals)
+			}
+			if !seen[key] && len(c.Ops) == len(c.After) {
+				seen[key] = true
+				all = append(all, c)
+			}
+		}
+	}
+	if len(all) == 0 {
+		return nil, core.Infra("Gen_KeyTreeMem produced no scripts")
+	}
+	sort.SliceStable(all, func(i, j int) bool { return all[i].N < all[j].N })
+	return all, nil
+}
+
+// runMemScripts replays the scripts on real InMemory values.
+func runMemScripts(ctx *core.Ctx, scripts []memScript) (obs []*observation, runs, unreal int, err error) {
+	type job struct {
+		s   spec
+		exp *memScript
+	}
+	var jobs []job
+	var alts [][]string
+	memNum := []string{"random", "extremes", "sparse", "dense"}
+	for i := range scripts {
+		sc := &scripts[i]
+		rot := i + int(ctx.Seed)
+		if rot < 0 {
+			rot = -rot
+		}
+		for v := 0; v < 4; v++ {
+			// every script: name and integer keys, first use All and Write; the source of the
+			// value and the key style rotate.  Big maps: two of the four variants.
+			if sc.N > 1000 && v != rot%4 && v != (rot+2)%4 {
+				continue
+			}
+			if !ctx.Thorough() && sc.N < 64 && v != rot%4 && v != (rot+1)%4 {
+				continue // quick tier: small maps get two variants (one per first use), the tree kind alternates
+			}
+			pre := []string{"all", "write"}[v%2]
+			if (rot+v)%7 == 6 {
+				pre = []string{"lookup", "none"}[v%2]
+			}
+			src := []string{"literal", "extracted"}[(rot+v/2)%2]
+			s := spec{Num: (v/2+rot/4)%2 == 1, N: sc.N, Seed: ctx.Seed, Per: 2, Mem: &memSpec{Source: src, Pre: pre, Ops: sc.Ops}}
+			if sc.N > 1000 {
+				s.Per, s.Probe = 1, "edges"
+			}
+			// key styles in rotating order; the first one in which the script is realisable is used
+			// (no key exists below the empty name / MinInt64 or between consecutive integers)
+			var styles []string
+			for k := 0; k < 4; k++ {
+				if s.Num {
+					styles = append(styles, memNum[(rot+v+k)%4])
+				} else {
+					styles = append(styles, nameStyles[(rot+v+k)%4])
+				}
+			}
+			s.Style = styles[0]
+			alts = append(alts, styles[1:])
+			jobs = append(jobs, job{s, sc})
+		}
+	}
+	res := make([][]*observation, len(jobs))
+	var wg sync.WaitGroup
+	var mu sync.Mutex
+	sem := make(chan struct{}, par())
+	for i := range jobs {
+		wg.Add(1)
+		sem <- struct{}{}
+		go func(i int) {
+			defer wg.Done()
+			defer func() { <-sem }()
+			o, e := observeMem(jobs[i].s, jobs[i].exp)
+			for _, st := range alts[i] {
+				if o != nil || e != nil {
+					break
+				}
+				jobs[i].s.Style = st
+				o, e = observeMem(jobs[i].s, jobs[i].exp)
+			}
+			mu.Lock()
+			defer mu.Unlock()
+			if e != nil && err == nil {
+				err = core.Infra("%s: %v", jobs[i].s.id(), e)
+			}
+			res[i] = o
+		}(i)
+	}
+	wg.Wait()
+	if err != nil {
+		return nil, 0, 0, err
+	}
+	for _, o := range res {
+		if o == nil {
+			unreal++
+			continue
+		}
+		runs++
+		obs = append(obs, o...)
+	}
+	return obs, runs, unreal, nil
 }
